@@ -155,6 +155,14 @@ func DumpIDL(ast *parser.Thrift) (string, error) {
 					required = "required "
 				}
 				sb.writeString(fmt.Sprintf("%d: %s%s %s", ag.ID, required, typeName(ag.Type), ag.Name))
+				if ag.Default != nil {
+					sb.writeString(" = ")
+					printConstTypedValue(&sb, ag.Default.TypedValue)
+				}
+				if len(ag.Annotations) > 0 {
+					sb.writeString(" ")
+					printAnnotation(&sb, ag.Annotations)
+				}
 				if i != len(f.Arguments)-1 {
 					sb.writeString(", ")
 				}
@@ -171,6 +179,14 @@ func DumpIDL(ast *parser.Thrift) (string, error) {
 						required = "required "
 					}
 					sb.writeString(fmt.Sprintf("%d: %s%s %s", th.ID, required, typeName(th.Type), th.Name))
+					if th.Default != nil {
+						sb.writeString(" = ")
+						printConstTypedValue(&sb, th.Default.TypedValue)
+					}
+					if len(th.Annotations) > 0 {
+						sb.writeString(" ")
+						printAnnotation(&sb, th.Annotations)
+					}
 					if i != len(f.Throws)-1 {
 						sb.writeString(", ")
 					}
